@@ -80,7 +80,7 @@ theorem call_steps {o : Oracle} {fuel op cap : Nat} {input : Bytes} {s s' : St} 
             rw [u7, u9]; exact hentry
           have hP := mdInv_enter (io := { input := input, availIn := input.length, availOut := cap }) hIu hentryU
           obtain ⟨evs, hevs⟩ := mdLoop_steps fuel _ _ _ _ _ hP h
-          exact ⟨.tau :: evs, .cons (Step.mdEnter (io := Io.start input cap) hI rfl hentry) hevs⟩
+          exact ⟨.tau 2 :: evs, .cons (Step.mdEnter (io := Io.start input cap) hI rfl hentry) hevs⟩
     · rename_i hop3
       have hop2 : op ≤ 2 := by omega
       have hrm : s.remainingMetadata = u32Max := by
@@ -110,10 +110,14 @@ theorem call_steps {o : Oracle} {fuel op cap : Nat} {input : Bytes} {s s' : St} 
             have hP0 : FastInv op s.streamState input.length s { input := input, availIn := input.length, availOut := cap } :=
               ⟨hI, hfm, hrm, Nat.le_refl _, hacc, Or.inl rfl⟩
             obtain ⟨hP1, hnp, evs, hevs⟩ := fastLoop_steps hop2 fuel _ _ _ _ hP0 hl1
-            exact ⟨evs ++ [.tau], hevs.append (.one (Step.cfc hP1.inv hop2 hP1.rm hnp hP1.nonprocZero))⟩
+            exact ⟨evs ++ [.tau 0], hevs.append (.one (Step.cfc hP1.inv hop2 hP1.rm hnp hP1.nonprocZero))⟩
           · simp at h
           · simp at h
-        · exact slowLoop_steps (c0 := s.streamState) (n := input.length) (total := s.inputPos + input.length) hop2 fuel s _ _ _ _
+        · rename_i hnfast
+          have hnf : ¬ fastMode s.params := by
+            intro hh
+            exact hnfast ⟨hh.1, by simp [hh.2.1], by simp [hh.2.2]⟩
+          exact slowLoop_steps (c0 := s.streamState) (n := input.length) (total := s.inputPos + input.length) hop2 fuel s _ _ _ _ hnf
             ⟨hI, rfl, hw, hrm, Nat.le_refl _, hacc, Or.inl rfl⟩ h
 
 /-- the first call on a fresh encoder: initialisation, then atomic steps -/
